@@ -35,6 +35,11 @@ CHECKS = {
                 text="IpMemo's Dump action is checked against R for all histories (both caching paths ps=0 / ps>0, seeded full-length identities); dump_to_file of the real classes is parsed and "
                      "TLC requires: covers every anonymized address with the pair actually returned, no duplicate original/replacement, every pair consistent with the learned flip.",
                 tech="TLA+ IpMemo Dump vs PrefixMap by TLC; dump traces of the real classes validated by TLC"),
+    "C18": dict(cat="model_checking", ref="5/C18",
+                text="Juniper.tla is the codec as a step machine; TLC visits all 7x65 states x 256 bytes and checks that every emitted group decodes to its byte (by induction: the round trip for every plaintext/salt). "
+                     "The real encoder/decoder are driven over those transitions (coverage measured; 100% in thorough), all 65 salt characters and arbitrary salt strings, arbitrary well-formed strings and every malformed class; "
+                     "each call is judged by TLC against the specification's own decoder and validity predicate.",
+                tech="TLA+ step machine Juniper.tla model-checked by TLC (all transitions); TLC trace validation of the real codec's calls"),
 }
 
 NA_REASON = "check not built yet (work in progress; see DESIGN.md section 5)"
